@@ -324,3 +324,62 @@ func VerifC02PyPI() {
 	vCover(want == 0, "reference says equal")
 	vAssert(vSign(got) == want, "ordering agrees with PEP 440")
 }
+
+// VerifC02LongNumeric: all-digit prerelease identifiers of up to ten digits (around 2^31) are numbers in
+// SemVer: compared numerically with each other and ordered below alphanumeric identifiers.
+var c02LongIDs = []string{"d", "dd", "99999999d", "214748364d", "21474836dd", "100000000d", "dx", "300000000d"}
+
+func VerifC02LongNumeric() {
+	sys := System(vParam("sys"))
+	ia := c09Instantiate(c02LongIDs[vParam("ia")], "a")
+	ib := c09Instantiate(c02LongIDs[vParam("ib")], "b")
+	numeric := func(s string) bool {
+		for i := 0; i < len(s); i++ {
+			if s[i] < '0' || s[i] > '9' {
+				return false
+			}
+		}
+		return true
+	}
+	// no leading zeros (strict SemVer rejects them; npm reads them as numbers): keep to the common ground
+	vAssume(vOr(len(ia) == 1, ia[0] != '0'))
+	vAssume(vOr(len(ib) == 1, ib[0] != '0'))
+	prefix := "1.2.3-"
+	if sys == Go {
+		prefix = "v1.2.3-"
+	}
+	sa, sb := prefix+ia, prefix+ib
+	vObserveStr("sa", sa)
+	vObserveStr("sb", sb)
+	a, err := sys.Parse(sa)
+	vAssert(err == nil, "a SemVer version with a long numeric identifier is accepted")
+	if err != nil {
+		return
+	}
+	b, err := sys.Parse(sb)
+	vAssert(err == nil, "a SemVer version with a long numeric identifier is accepted")
+	if err != nil {
+		return
+	}
+	want := 0
+	na, nb := numeric(ia), numeric(ib)
+	switch {
+	case na && nb:
+		if len(ia) != len(ib) {
+			want = -1
+			if len(ia) > len(ib) {
+				want = 1
+			}
+		} else {
+			want = vIteInt(ia < ib, -1, vIteInt(ia > ib, 1, 0))
+		}
+	case na:
+		want = -1
+	case nb:
+		want = 1
+	default:
+		want = vIteInt(ia < ib, -1, vIteInt(ia > ib, 1, 0))
+	}
+	vCover(na && nb && len(ia) == 10, "a ten-digit numeric identifier")
+	vAssert(vSign(compare(a, b)) == want, "long numeric identifiers compare as numbers (SemVer 2.0 §11)")
+}
